@@ -209,6 +209,16 @@ def _ms_case(ctx, small=False):
         fs = rng.choice([10.0, 100.0, 50.0])
         cs = rng.random() < 0.4
         S = sysgen.random_system(rng, g, m, nglob, fs, cs)
+        if not small and m >= 2 and rng.random() < 0.25:
+            # two distinct modes 0.8 % .. 4 % apart in frequency (closer than the default matching tolerance of the extraction
+            # step): still distinct frequencies, identified exactly from noise-free data and extracted as two modes
+            j = rng.randrange(m - 1)
+            f2 = S.fn[j] * (1.0 + rng.uniform(0.008, 0.04))
+            if f2 < (S.fn[j + 2] - 0.02 * fs if j + 2 < m else 0.45 * fs):
+                fn = S.fn.copy()
+                fn[j + 1] = f2
+                S = sysgen.ModalSystem(fn, S.xi, S.phi, fs)
+                ctx.count("system_close_mode_pair")
         if np.min(np.abs(S.phi[:nref, :]).max(axis=0)) < 0.3:
             continue
         # stress stream: one mode only weakly visible at the references (still visible: the property's premise holds);
